@@ -37,8 +37,8 @@ class FitInfoFile(object):
 
         elif isinstance(fits, (list, tuple)):
 
-            for info in self._fits[1:]:
-                if info.meta != self._fits[0].meta:
+            for info in fits[1:]:
+                if info.meta != fits[0].meta:
                     raise ValueError("The meta property of all FitInfo instances should match")
 
             self._fits = fits
